@@ -221,6 +221,33 @@ def check_case(case, rec, bases, max3d=23):
                 rec.nontriv([b, ctor, seq, box, list(mono)])
             if err / tol > worst:
                 worst, worst_m = err / tol, (list(mono), err, tol)
+        # the same scheme object is used for further boxes (incl. end points -1 / -2 / 0 in one slot) and, in 1-D,
+        # re-entrantly (an iterated integral computed with a single rule): earlier calls must leave nothing behind
+        if deg >= 1 and worst <= 1.0:
+            for lo in (-1.0, -2.0, 0.0, -1.0):
+                bx = [[lo, 0.5]] + [[0.0, 1.0]] * (dim - 1)
+                args = [v for bb in bx for v in bb]
+                with repo.quiet():
+                    if dim == 1:
+                        val = float(cur.integrate(lambda x: (x - lo), *args))
+                    else:
+                        val = float(cur.integrate(lambda x: (x[0] - lo) * (1 if not symmetric else 1), *args)) if not symmetric else \
+                            float(cur.integrate(lambda x: x[0] * 0 + 1.0, *args))
+                exact = (0.5 - lo) ** 2 / 2 if not (symmetric and dim > 1) else (0.5 - lo)
+                rec.case()
+                if abs(val - exact) > 1e-11 * abs(exact):
+                    rec.violation(tag + '/object_reused_for_another_box', {'box': bx, 'value': val, 'exact': exact, 'mirrors': seq}, cj)
+                    return
+            if dim == 1:
+                a0, b0 = box[0]
+                with repo.quiet():
+                    val = float(cur.integrate(lambda x: np.array([cur.integrate(lambda y: (y - 2.0) + 0 * xi, 2.0, 3.5) * (xi - a0) / hs[0]
+                                                                  for xi in np.atleast_1d(x)]), a0, b0))
+                exact = (1.5 ** 2 / 2) * hs[0] / 2
+                rec.case()
+                if abs(val - exact) > (1e-11 + 8 * noise) * abs(exact):
+                    rec.violation(tag + '/not_reentrant', {'value': val, 'exact': exact}, cj)
+                    return
         rec.metric('err_over_tol', worst, None)
         rec.cls(ctor)
         if worst > 1.0:
